@@ -34,7 +34,7 @@ The generic template's shift() is checked on the unoptimised pipeline (P0, mode 
 
 Candidate-defect families (kept apart so that a finding matches one family): neg-int-simd, hmin-int / hmax-int, hmin-generic /
 hmax-generic, mask_store-fallback* / mask_store-prefix-fallback, lanes16-mask_*, broadcast (avx512), shift-generic, shift
-(double/avx/by3), maskload-free-generic.
+(double/avx/by3 and float/avx/by3), maskload-free-generic, cast-width-abi-*.
 
 Not decided here (and why):
   * rcp / rsqrt relative-error bounds: need non-linear floating-point reasoning -- left out.
@@ -205,12 +205,12 @@ def data_movement(vt, P1, P0, full):
     body = '    V va;\n    va.set_sequential(s[0]);\n    va.store(o,false);'
     if vt.flt:
         # lane i = x + i; lane 0 may be x itself or x + 0.  The intrinsic specialisations add constants (UF congruence, P0); the
-        # generic template converts the loop counter, so its additions are checked with real IEEE adders (SYM, up to 8 lanes)
+        # generic template converts the loop counter, so its additions are checked with real IEEE adders (SYM, up to 256 bits of lanes)
         x = E.inp(s, 0)
         ens = [('bool', 'lane 0 == x (or x+0)', E.post(o, 0).same(x).bor(E.post(o, 0).same(x + E.const(0, ty))))]
         ens += [(o, i, x + E.const(i, ty)) for i in range(1, n)]
         if not vt.generic: out.append(mk('set_sequential', vt, P0, body, [s, o], ens, 'UF'))
-        elif n <= 8: out.append(mk('set_sequential', vt, P1, body, [s, o], ens))
+        elif n * ty.bits <= 256: out.append(mk('set_sequential', vt, P1, body, [s, o], ens))
     else:
         out.append(mk('set_sequential', vt, P1, body, [s, o], [(o, i, E.inp(s, 0) + E.const(i, ty)) for i in range(n)]))
     a, o = a_(), o_()
@@ -222,10 +222,9 @@ def data_movement(vt, P1, P0, full):
 def shifts(vt, P1, P0, full):
     """shift(i): lane j = (j >= i) ? lane j-i : 0."""
     n = vt.n; ty = vt.ty; out = []
-    if vt.generic: ks = list(range(1, n))
+    if vt.generic: ks = sorted({1, n - 1})
     elif vt.spec and vt.flt and vt.abi in ('sse', 'avx'): ks = [1] if (ty is DBL and vt.abi == 'sse') else list(range(1, n))
     else: return out
-    if not full: ks = sorted({ks[0], ks[-1]})
     for k in ks:
         a = Buf('a', ty, n, 'in'); o = Buf('o', ty, n, 'out')
         # the generic template is checked on the unoptimised pipeline (P0): -O1 silently trims accesses it can prove out of bounds
@@ -253,13 +252,13 @@ def masks(vt, P1, full, pre=''):
     out.append(mk('mask_load-over', vt, P1, '    V va(b,false);\n    va.mask_load(a,(%s)m,false);\n    va.store(o,false);' % MT, [a, b, o],
                   [('bool', 'lane %d' % i, E.sel(bit(m, i), E.post(o, i).same(E.inp(a, i)), E.post(o, i).same(E.inp(b, i)).bor(E.post(o, i).same(zero)))) for i in range(n)], scalars=[m]))
     # -- mask_store: disabled lanes of the destination unchanged
-    for al in (['false', 'true'] if (full or vt.hwmask) else ['false']):
+    for al in (['false', 'true'] if vt.hwmask else ['false']):       # the fallback ignores the flag
         a = Buf('a', ty, n, 'in'); c = Buf('c', ty, n, 'inout'); m = M()
         out.append(mk('mask_store' + hw + ('-aligned' if al == 'true' else ''), vt, P1, '    V va(a,false);\n    va.mask_store(c,(%s)m,%s);' % (MT, al),
                       [a, c], [(c, i, E.sel(bit(m, i), E.inp(a, i), E.inp(c, i))) for i in range(n)], scalars=[m]))
     # -- prefix masks on buffers that hold only the enabled lanes (nothing else may be read / written)
     if n > 1:
-        ks = sorted({1, n - 1} | ({n // 2} if full else set()))
+        ks = sorted({1, n - 1} | ({n // 2} if (full and vt.hwmask) else set()))
         for k in ks:
             a = Buf('a', ty, k, 'in'); o = Buf('o', ty, n, 'out')
             out.append(mk('mask_load-prefix', vt, P1, '    V va;\n    va.mask_load(a,(%s)%d,false);\n    va.store(o,false);' % (MT, (1 << k) - 1), [a, o],
@@ -342,7 +341,8 @@ def float_ops(vt, P1, P0, full, rng):
     # 16 lanes: ~64 uninterpreted applications per case (commutative operators count twice) => 1-4 minutes of SAT each; these
     # go straight to the assertion form with a longer budget, and the quick tier keeps only the vector-vector forms
     heavy = n >= 16
-    uf = lambda *a, **kw: heavy_case(lanewise(*a, mode='UF', **kw)) if heavy else lanewise(*a, mode='UF', **kw)
+    slow = n * ty.bits >= 512        # 16 floats / 8 doubles: assertion form directly, long budget
+    uf = lambda *a, **kw: heavy_case(lanewise(*a, mode='UF', **kw)) if slow else lanewise(*a, mode='UF', **kw)
     for op, sym in (('add', '+'), ('sub', '-'), ('mul', '*'), ('div', '/')):
         for fname, ex, nin, sc, ip in (forms if full else forms[:1] + ([] if heavy else [rng.choice(forms[1:])])):
             out.append(uf('%s-%s' % (op, fname), vt, P0, ex % sym, arith_spec(op, fname), nin=nin, scalar=sc, inplace=ip))
@@ -382,11 +382,17 @@ def float_ops(vt, P1, P0, full, rng):
     return out
 
 def casts(vt, P1):
-    """generic template only: cast<U>() converts every lane with static_cast<U>."""
+    """generic template only: cast<U>() converts every lane with static_cast<U>; the result is SIMDVector<U,ABI>."""
     if not vt.generic: return []
     n = vt.n; ty = vt.ty; out = []
     targets = {'int': [L64, FLT], 'int64': [INT, DBL], 'float': [DBL, INT], 'double': [FLT, L64]}[ty.name]
     for u in targets:
+        fam = 'cast-%s' % u.name
+        if not vt.abi.startswith('fixed'):
+            # width-based ABI (generic fallback of sse/avx/avx512): SIMDVector<U,ABI> has a different lane count when sizeof(U)
+            # differs; widening conversions then write all n lanes into the shorter result (candidate defect, own family)
+            if u.bits <= ty.bits: continue
+            fam = 'cast-width-abi-%s' % u.name
         a = Buf('a', ty, n, 'in'); o = Buf('o', u, n, 'out')
         # conversions keep their real meaning in SYM; float -> int is specified where the value is representable
         req = []
@@ -395,7 +401,7 @@ def casts(vt, P1):
             for i in range(n):
                 x = E.inp(a, i)
                 req += [x.cmp('gt', E.const(-lim, ty)), x.cmp('lt', E.const(lim, ty))]
-        out.append(mk('cast-%s' % u.name, vt, P1, '    V va(a,false);\n    SIMDVector<%s,%s> r = va.cast<%s>();\n    r.store(o,false);' % (CPPT[u.name], vt.cabi, CPPT[u.name]),
+        out.append(mk(fam, vt, P1, '    V va(a,false);\n    SIMDVector<%s,%s> r = va.cast<%s>();\n    r.store(o,false);' % (CPPT[u.name], vt.cabi, CPPT[u.name]),
                       [a, o], [(o, i, E.inp(a, i).cast(u)) for i in range(n)], requires=req))
     return out
 
